@@ -189,7 +189,7 @@ func main() {
 		explore(c)
 		return
 	}
-	nGen, nAssume := 330, 30
+	nGen, nAssume := 270, 24
 	if c.Thorough() {
 		nGen, nAssume = 3000, 300
 	}
